@@ -216,9 +216,14 @@ class WriteState:
             return hashlib.new(s.mac, self.mac_key + b"\x5c" * padlen + inner).digest()
         return hmac.new(self.mac_key, seq + bytes([ctype]) + struct.pack("!HH", self.v, len(data)) + data, s.mac).digest()
 
+    deflate = None      # zlib.compressobj() when DEFLATE was negotiated (RFC 3749): one stream per direction, sync flush per record
+
     def protect(self, ctype, data, pad_blocks=0, explicit_seq_nonce=True):
         s = self.s
         ver = struct.pack("!H", self.v)
+        if self.deflate is not None:
+            import zlib
+            data = self.deflate.compress(data) + self.deflate.flush(zlib.Z_SYNC_FLUSH)
         if s.kind == "stream":
             frag = self.rc4.update(data + self._mac(ctype, data))
         elif s.kind == "cbc":
@@ -300,7 +305,7 @@ def ext(t, body):
     return struct.pack("!HH", t, len(body)) + body
 
 
-def _frag(msgs, bits, n, cuts=None):
+def _frag(msgs, bits, n, cuts=None, cont=None):
     """n > 0: the flight is one byte stream cut into records of at most n bytes (RFC 5246 6.2.1 / RFC 8446 5.1: a handshake message may
     be fragmented across several records, and a record may hold the end of one message and the start of the next); cuts: additional record
     boundaries [[message index, j], ...] j bytes into (the header of) that message; neither: _group.  A leading ServerHello stays whole."""
@@ -316,6 +321,15 @@ def _frag(msgs, bits, n, cuts=None):
     for mi, j in cuts or []:
         bounds.add(starts[mi % len(starts)][0] + j)
     bounds = sorted(b for b in bounds if keep <= b < len(data) and b > 0)
+    if cont is not None:
+        # a continuation record that begins inside the body of a Certificate message begins with the byte `cont` (certificates are
+        # DER: 01 / 02 / 04 / 16 ... are everyday tag bytes, and they are also handshake message types and record content types)
+        data = bytearray(data)
+        for b in bounds:
+            inside = [(o, t) for (o, t), nxt in zip(starts, [o2 for o2, _ in starts[1:]] + [len(data)]) if o + 4 <= b < nxt]
+            if inside and inside[0][1] in ("CERT", "CCERT"):
+                data[b] = cont
+        data = bytes(data)
     # no record longer than 2^14 bytes
     edges = [0] + bounds + [len(data)]
     full = [0]
@@ -352,6 +366,8 @@ DEFAULT_TLS_SPEC = dict(
     early_labels=False,    # TLS 1.3: the key log also holds CLIENT_EARLY_TRAFFIC_SECRET / EARLY_EXPORTER_SECRET lines of this connection
     hrr=0,                 # TLS 1.3: 1 = HelloRetryRequest + compatibility CCS + second ClientHello, 2 = without the CCS (content not claimed)
     share_master=0,        # != 0: the master secret is derived from this value (TLS <= 1.2 connections resumed from one session share it)
+    ch_comp=False, sh_comp=False,   # DEFLATE offered by the client / selected by the server (<= TLS 1.2)
+    hs_cont=None,          # first byte of continuation records that begin inside a Certificate body
     hs_cuts=None,          # [[message index, j], ...] extra record boundaries j bytes into a message of the flight (0..4: around / inside its header)
     client_auth=False,     # CertificateRequest in the server's flight; Certificate / CertificateVerify in the client's
     half_rtt=None,         # [[len, pad], ...] TLS 1.3: server application records right after the server Finished, before the client's (0.5-RTT)
@@ -402,7 +418,8 @@ class TlsConn:
                 ch_ext += ext(0x0016, b"")
             if version == TLS13:
                 ch_ext += ext(0x002B, b"\x02\x03\x04") + ext(0x0033, struct.pack("!H", 36) + struct.pack("!HH", 29, 32) + rbytes(rnd, 32))
-        ch_body = rv + self.cr + bytes([len(sid)]) + sid + struct.pack("!H", 4) + struct.pack("!H", suite.code) + b"\x00\xff" + b"\x01\x00"
+        ch_body = rv + self.cr + bytes([len(sid)]) + sid + struct.pack("!H", 4) + struct.pack("!H", suite.code) + b"\x00\xff" + \
+            (b"\x02\x01\x00" if (sp.get("ch_comp") or sp.get("sh_comp")) and version != TLS13 else b"\x01\x00")
         if ch_ext:
             ch_body += struct.pack("!H", len(ch_ext)) + ch_ext
         ch = hs(1, ch_body)
@@ -437,7 +454,11 @@ class TlsConn:
                 sh_ext += ext(0x0016, b"")
             for t, ln in sp["extra_exts"]:
                 sh_ext += ext(t, rbytes(rnd, ln))
-        sh_body = rv + self.sr + bytes([len(sid)]) + sid + struct.pack("!H", sp.get("sh_suite") or suite.code) + b"\x00"
+        # sh_comp: the server selects DEFLATE (RFC 3749).  What is exported for such a connection is not claimed (C01 excludes
+        # compression; the encoder does compress, one DEFLATE stream per direction with a sync flush per record); such captures serve C18 / C06 only.
+        # ch_comp: the client merely offers DEFLATE next to null and the server selects null - an ordinary connection
+        sh_body = rv + self.sr + bytes([len(sid)]) + sid + struct.pack("!H", sp.get("sh_suite") or suite.code) + \
+            (b"\x01" if sp.get("sh_comp") and version != TLS13 else b"\x00")
         mode = sp["sh_ext"]
         if version == TLS13 or sh_ext or self.etm:
             mode = "block"
@@ -501,6 +522,9 @@ class TlsConn:
         cw = WriteState(v, s, kb["ckey"], kb["civ"], kb["cmac"], self.etm, rnd)
         sw = WriteState(v, s, kb["skey"], kb["siv"], kb["smac"], self.etm, rnd)
         self.w = {False: cw, True: sw}
+        if sp.get("sh_comp"):
+            import zlib
+            cw.deflate, sw.deflate = zlib.compressobj(), zlib.compressobj()
         fin_len = 36 if v == SSL30 else 12
         g = self.grouping
         if sp["abbreviated"]:
@@ -525,12 +549,12 @@ class TlsConn:
             if sp.get("client_auth"):
                 msgs.append(("CR", hs(13, rbytes(rnd, 24))))
             msgs.append(("SHD", hs(14, b"")))
-            for t, m in _frag(msgs, g, sp.get("hs_frag", 0), sp.get("hs_cuts")):
+            for t, m in _frag(msgs, g, sp.get("hs_frag", 0), sp.get("hs_cuts"), sp.get("hs_cont")):
                 self._plain(True, 0x16, m, rv, t)
             if sp.get("client_auth"):
                 # client authentication: Certificate, ClientKeyExchange, CertificateVerify - grouped / fragmented like the server's flight
                 cmsgs = [("CCERT", hs(11, rbytes(rnd, max(10, sp["cert_len"] // 2)))), ("CKE", hs(16, rbytes(rnd, 130))), ("CCV", hs(15, rbytes(rnd, 70)))]
-                for t, m in _frag(cmsgs, g >> 2, sp.get("hs_frag", 0), sp.get("hs_cuts")):
+                for t, m in _frag(cmsgs, g >> 2, sp.get("hs_frag", 0), sp.get("hs_cuts"), sp.get("hs_cont")):
                     self._plain(False, 0x16, m, rv, t)
             else:
                 self._plain(False, 0x16, hs(16, rbytes(rnd, 130)), rv, "CKE")
@@ -569,7 +593,7 @@ class TlsConn:
         self.w = {False: cw, True: sw}
         msgs = [("EE", hs(8, b"\x00\x00"))] + ([("CR", hs(13, rbytes(rnd, 24)))] if sp.get("client_auth") else []) + \
             [("CERT", hs(11, rbytes(rnd, sp["cert_len"]))), ("CV", hs(15, rbytes(rnd, 70))), ("FIN", hs(20, rbytes(rnd, hl)))]
-        for t, m in _frag(msgs, self.grouping, sp.get("hs_frag", 0), sp.get("hs_cuts")):
+        for t, m in _frag(msgs, self.grouping, sp.get("hs_frag", 0), sp.get("hs_cuts"), sp.get("hs_cont")):
             self._enc(True, sw.protect(0x16, m, self.pad13), t)
         sw.set_secret(sec["sap"])
         for ln, pad in sp.get("half_rtt") or []:
@@ -580,7 +604,7 @@ class TlsConn:
         cmsgs = [("FIN", hs(20, rbytes(rnd, hl)))]
         if sp.get("client_auth"):
             cmsgs = [("CCERT", hs(11, rbytes(rnd, max(10, sp["cert_len"] // 2)))), ("CCV", hs(15, rbytes(rnd, 70)))] + cmsgs
-        for t, m in _frag(cmsgs, self.grouping >> 2, sp.get("hs_frag", 0), sp.get("hs_cuts")):
+        for t, m in _frag(cmsgs, self.grouping >> 2, sp.get("hs_frag", 0), sp.get("hs_cuts"), sp.get("hs_cont")):
             self._enc(False, cw.protect(0x16, m, self.pad13), t)
         cw.set_secret(sec["cap"])
 
